@@ -76,6 +76,16 @@ func (x *Exec) VerifyFamily(fn *ssa.Function) (rep *FuncReport) {
 		param *ssa.Parameter
 	}
 	var aliases []aliasRet
+	// ... or the result of another compile function that has a family contract of its own
+	// (x * 8 -> mulPow2(...)): delegated returns
+	type delegRet struct {
+		frame  *Frame
+		r      exitRec
+		callee *ssa.Function
+		args   []Value
+		pre    *State
+	}
+	var delegs []delegRet
 	x.OnTopReturn = func(f *Frame, r exitRec) {
 		if f.fn != fn || len(r.results) != 1 {
 			return
@@ -83,6 +93,14 @@ func (x *Exec) VerifyFamily(fn *ssa.Function) (rep *FuncReport) {
 		rt, ok := r.results[0].(*smt.Term)
 		if !ok {
 			return
+		}
+		for _, rec := range f.callHist {
+			if len(rec.results) == 1 && rec.results[0] == Value(rt) && rec.fn != nil {
+				if csp := x.specFor(rec.fn); csp != nil && len(csp.Of("closure")) > 0 {
+					delegs = append(delegs, delegRet{f, r, rec.fn, rec.args, rec.pre})
+					return
+				}
+			}
 		}
 		for _, p := range fn.Params {
 			if pv, ok := f.regs[p].(*smt.Term); ok && pv == rt && p.Type().String() == fn.Signature.Results().At(0).Type().String() {
@@ -164,6 +182,61 @@ func (x *Exec) VerifyFamily(fn *ssa.Function) (rep *FuncReport) {
 					x.oblige("closure-not-analysable", msg, x.where(s.clo.Fn), st, x.B.False())
 				}
 			}()
+			// "closure split NAME in LO..HI": a case split on a local of the compile function that
+			// the closure captures (a shift count, ...), when its creation path does not fix it
+			wide := false
+			if rs := s.clo.Fn.Signature.Results(); rs.Len() == 1 {
+				if bt, isB := rs.At(0).Type().Underlying().(*types.Basic); isB {
+					switch bt.Kind() {
+					case types.Int, types.Int64, types.Uint, types.Uint64, types.Uintptr, types.Int32, types.Uint32:
+						wide = true // the solvers handle a symbolic split variable at 8 and 16 bits
+					}
+				}
+			}
+			if name, lo, hi, ok := splitClause(sp); ok && wide {
+				if d, found := s.frame.lookupName(name); found && !d.addr {
+					if t, isT := s.frame.regs[d.v].(*smt.Term); isT && t.S.K == smt.KBV {
+						// a creation path that cannot happen is not split 64 ways
+						if x.entailed(x.dropQuantified(s.st.PC), x.B.False()) {
+							return
+						}
+						_, pinned0 := propagatePin(s.st.PC, t)
+						if os.Getenv("GOWP_DEBUG") == "4" {
+							fmt.Fprintf(os.Stderr, "SPLIT %s: %s pinned=%v\n", sig, clipS(t.String(), 120), pinned0)
+						}
+						if _, pinned := propagatePin(s.st.PC, t); !pinned && !t.IsConst() {
+							var vals []uint64
+							if lo < 0 {
+								for e := 0; e < t.S.W; e++ {
+									vals = append(vals, uint64(1)<<uint(e))
+								}
+								// the cases are exhaustive on this path
+								var any []*smt.Term
+								for _, v := range vals {
+									any = append(any, x.B.Eq(t, x.B.BVC(v, t.S.W)))
+								}
+								x.prefix = QualName(s.frame.fn)
+								x.sig = sig
+								x.oblige("split-exhaustive", name+" is a power of two on this creation path", x.where(s.clo.Fn), s.st, x.B.Or(any...))
+							} else {
+								for v := lo; v <= hi; v++ {
+									vals = append(vals, uint64(v))
+								}
+							}
+							for _, v := range vals {
+								sv := *s
+								sv.st = s.st.clone()
+								sv.st.PC = x.B.And(s.st.PC, x.B.Eq(t, x.B.BVC(v, t.S.W)))
+								if sv.st.PC.IsFalse() {
+									continue // this value is excluded by the creation path
+								}
+								x.checkClosure(sp, &sv, fmt.Sprintf("%s;%s=%d", sig, name, v))
+							}
+							return
+						}
+					}
+				}
+			}
 			x.checkClosure(sp, s, sig)
 		}()
 	}
@@ -189,7 +262,37 @@ func (x *Exec) VerifyFamily(fn *ssa.Function) (rep *FuncReport) {
 			x.checkAlias(sp, a.frame, a.r, a.param, i+1)
 		}()
 	}
-	rep.Aliases = len(aliases)
+	for i, d := range delegs {
+		func() {
+			defer func() {
+				if r := recover(); r != nil {
+					var msg string
+					switch e := r.(type) {
+					case Unsupported:
+						msg = e.Error()
+					case SpecError:
+						msg = e.Error()
+					default:
+						panic(r)
+					}
+					x.prefix = QualName(fn)
+					x.sig = fmt.Sprintf("deleg%d:%s", i+1, d.callee.Name())
+					x.NoObl = 0
+					x.oblige("closure-not-analysable", msg, d.r.where, x.newState(), x.B.False())
+				}
+			}()
+			// the compile-time facts are read in the state just before the delegated call (the
+			// callee's frame condition says nothing about the expression trees afterwards)
+			dr := d.r
+			if d.pre != nil {
+				pre := d.pre.clone()
+				pre.PC = d.r.st.PC
+				dr.st = pre
+			}
+			x.checkDelegated(sp, d.frame, dr, d.callee, d.args, i+1)
+		}()
+	}
+	rep.Aliases = len(aliases) + len(delegs)
 	// every FuncLit of the function must have been reached (no closure silently unmatched)
 	nlit := len(fn.AnonFuncs)
 	distinct := map[*ssa.Function]bool{}
@@ -445,12 +548,21 @@ func (x *Exec) checkClosure(sp *spec.FuncSpec, s *closureSite, sig string) {
 		if err != nil {
 			specErr("%v", err)
 		}
-		run.PC = B.And(run.PC, nf.evalBool(e, run, s.st))
+		rq := x.simplifyUnder(run.PC, nf.evalBool(e, run, s.st))
+		if os.Getenv("GOWP_DEBUG") == "3" {
+			fmt.Fprintf(os.Stderr, "REQ %s => %s\n", c.Text, clipS(rq.String(), 400))
+		}
+		run.PC = B.And(run.PC, rq)
 	}
 	if len(reqs) > 0 {
 		// the assumptions may pin further values (e.g. the kind of a variable)
 		fe.facts, fe.pins = propagate(run.PC)
-		if fe.facts[-1] {
+		if fe.facts[-1] || run.PC.IsFalse() {
+			return
+		}
+		// the closure's precondition may contradict its creation path without being literally
+		// false (e.g. a kind test phrased differently): ask the solvers once
+		if x.entailed(run.PC, B.False()) {
 			return
 		}
 	}
@@ -1357,6 +1469,19 @@ func (x *Exec) checkAlias(sp *spec.FuncSpec, par *Frame, r exitRec, p *ssa.Param
 			defer func() {
 				x.fam = nil
 				x.assumes = x.assumes[:nAssume]
+				if rr := recover(); rr != nil {
+					var msg string
+					switch e := rr.(type) {
+					case Unsupported:
+						msg = e.Error()
+					case SpecError:
+						msg = e.Error()
+					default:
+						panic(rr)
+					}
+					x.NoObl = 0
+					x.oblige("closure-not-analysable", msg, r.where, x.newState(), x.B.False())
+				}
 			}()
 			mk := func() *Frame {
 				sf := x.newFrame(par.fn, nil)
@@ -1396,4 +1521,177 @@ func (x *Exec) checkAlias(sp *spec.FuncSpec, par *Frame, r exitRec, p *ssa.Param
 			x.oblige("alias", "returning "+p.Name()+" satisfies: "+exprC.Text, r.where, run, goal)
 		}()
 	}
+}
+
+// checkDelegated: the compile function returned what another compile function (with a family
+// contract of its own) returned. By that contract the result denotes the callee's semantic
+// equation over the callee's arguments; it must agree with this function's equation.
+func (x *Exec) checkDelegated(sp *spec.FuncSpec, par *Frame, r exitRec, callee *ssa.Function, args []Value, n int) {
+	B := x.B
+	clauseOf := func(s *spec.FuncSpec) (*spec.Clause, spec.Expr) {
+		for _, c := range s.Of("closure") {
+			if w := strings.Fields(c.Text); len(w) > 0 && w[0] == "expr" {
+				e, err := spec.ParseExpr(strings.TrimSpace(strings.TrimPrefix(strings.TrimSpace(c.Text), "expr")))
+				if err != nil {
+					specErr("%v", err)
+				}
+				return c, e
+			}
+		}
+		return nil, nil
+	}
+	exprC, e := clauseOf(sp)
+	csp := x.specFor(callee)
+	calleeC, ce := clauseOf(csp)
+	if exprC == nil || calleeC == nil {
+		specErr("delegated return to %s: both contracts need a 'closure expr' clause", FuncName(callee))
+	}
+	// the callee's frame: its parameters are the actual arguments
+	cpar := x.newFrame(callee, nil)
+	for i, p := range callee.Params {
+		if i < len(args) {
+			cpar.regs[p] = args[i]
+		}
+	}
+	// the kind is that of the callee's first *Expr argument
+	par.cur, par.curIdx = nil, 0
+	var kt *smt.Term
+	// the kind is that of the callee's first argument that carries a Type (an *Expr, *Bind, *Var ...)
+	for i, p := range callee.Params {
+		if i >= len(args) || kt != nil {
+			continue
+		}
+		pt, isPtr := p.Type().Underlying().(*types.Pointer)
+		if !isPtr {
+			continue
+		}
+		if su, isS := pt.Elem().Underlying().(*types.Struct); !isS || findField(su, "Type") == nil {
+			continue
+		}
+		typ := cpar.selectField(TV{args[i], p.Type()}, "Type", r.st)
+		kt = x.kindOfXType(cpar, typ, r.st)
+	}
+	if kt == nil {
+		specErr("delegated return to %s: no argument with a Type", FuncName(callee))
+	}
+	for k := uint64(kBool); k <= kString; k++ {
+		if KindType(k) == nil {
+			continue
+		}
+		create := r.st.clone()
+		create.PC = B.And(r.st.PC, B.Eq(kt, B.BVC(k, kt.S.W)))
+		facts, pins := propagate(create.PC)
+		if facts[-1] || create.PC.IsFalse() {
+			continue
+		}
+		x.prefix = QualName(par.fn)
+		x.sig = fmt.Sprintf("deleg%d:%s,k=%s", n, callee.Name(), kindNames[k])
+		x.famN++
+		run := x.newState()
+		run.lazy = &lazyHeap{base: B.Var(fmt.Sprintf("rtok%d", x.famN), RefS)}
+		run.PC = x.dropQuantified(create.PC)
+		env := B.Var(fmt.Sprintf("env%d", x.famN), RefS)
+		run.PC = B.And(run.PC, B.Neq(env, B.IntC(0)))
+		nAssume := len(x.assumes)
+		func() {
+			defer func() {
+				x.fam = nil
+				x.assumes = x.assumes[:nAssume]
+				if rr := recover(); rr != nil {
+					var msg string
+					switch e := rr.(type) {
+					case Unsupported:
+						msg = e.Error()
+					case SpecError:
+						msg = e.Error()
+					default:
+						panic(rr)
+					}
+					x.NoObl = 0
+					x.oblige("closure-not-analysable", msg, r.where, x.newState(), x.B.False())
+				}
+			}()
+			evalIn := func(owner *Frame, ex spec.Expr, st *State) (tv TV, undefined string) {
+				fe := &famEnv{x: x, parent: owner, create: create, facts: facts, pins: pins, memo: map[string]TV{}, env: env}
+				x.fam = fe
+				sf := x.newFrame(owner.fn, nil)
+				sf.regs = owner.regs
+				sf.outer = owner
+				sf.entry = run
+				defer func() {
+					if rr := recover(); rr != nil {
+						if se, ok := rr.(SpecError); ok && (strings.Contains(se.Error(), "not defined on") || strings.Contains(se.Error(), "on complex") || strings.Contains(se.Error(), "on composite") || strings.Contains(se.Error(), "literal")) {
+							undefined = se.Error()
+							return
+						}
+						if ue, ok := rr.(Unsupported); ok && strings.Contains(ue.Error(), "unsafe view as") {
+							// a kind without an unboxed representation (strings are never stored in Env.Ints)
+							undefined = ue.Error()
+							return
+						}
+						panic(rr)
+					}
+				}()
+				return sf.eval(ex, st, create), ""
+			}
+			x.NoObl++
+			specSt := run.clone()
+			want, u1 := evalIn(par, e, specSt)
+			gotSt := run.clone()
+			got, u2 := evalIn(cpar, ce, gotSt)
+			x.NoObl--
+			if u1 != "" || u2 != "" {
+				x.note("alias returns: kinds for which Go does not define the operator are skipped (the property is about programs Go accepts)")
+				return
+			}
+			// the callee's contract speaks only about closures created under its own
+			// "closure requires": they must hold here
+			for _, rc := range csp.Of("closure") {
+				w := strings.Fields(rc.Text)
+				if len(w) == 0 || w[0] != "requires" {
+					continue
+				}
+				re, err := spec.ParseExpr(strings.TrimSpace(strings.TrimPrefix(strings.TrimSpace(rc.Text), "requires")))
+				if err != nil {
+					specErr("%v", err)
+				}
+				// evaluated over the callee's locals at its closure creation points: here only its
+				// parameters and what is computed from them are available; locals named k are the kind
+				cf := x.newFrame(callee, nil)
+				cf.regs = cpar.regs
+				cf.overTV["k"] = TV{B.BVC(k, 64), nil}
+				x.NoObl++
+				g := x.simplifyUnder(create.PC, cf.evalBool(re, create, create))
+				x.NoObl--
+				x.oblige("delegated-requires", FuncName(callee)+" is only specified for: "+rc.Text, r.where, run, g)
+			}
+			goal := x.sameOutcome(exitRec{st: gotSt, results: []Value{got.V}}, []Value{want.V}, specSt)
+			goal = x.simplifyUnder(run.PC, goal)
+			x.oblige("delegated", "returning the result of "+FuncName(callee)+" ("+calleeC.Text+") satisfies: "+exprC.Text, r.where, run, goal)
+		}()
+	}
+}
+
+// splitClause parses "closure split NAME in LO..HI".
+func splitClause(sp *spec.FuncSpec) (name string, lo, hi int, ok bool) {
+	for _, c := range sp.Of("closure") {
+		w := strings.Fields(c.Text)
+		if len(w) == 4 && w[0] == "split" && w[2] == "in" {
+			if _, err := fmt.Sscanf(w[3], "%d..%d", &lo, &hi); err == nil {
+				return w[1], lo, hi, true
+			}
+		}
+		// "split NAME pow2": NAME ranges over the 64 powers of two (exhaustiveness is an obligation)
+		if len(w) == 3 && w[0] == "split" && w[2] == "pow2" {
+			return w[1], -1, -1, true
+		}
+	}
+	return "", 0, 0, false
+}
+
+// propagatePin: the constant the path condition pins t to, if any.
+func propagatePin(pc, t *smt.Term) (*smt.Term, bool) {
+	_, pins := propagate(pc)
+	c, ok := pins[t.ID]
+	return c, ok
 }
